@@ -235,4 +235,7 @@ def check(chk, repo):
         st = [e for e in w.events if e.kind == "store" and e.target == ("attr", ("self",), f)]
         rep.fn("STORED-" + f, w.entry, f"calculate_pdf stores {f} on the subgraph", len(st) >= 1,
                f"{f} is never stored at fit time")
+    # KNNSupervisedOPF.fit drops the arcs after the final clustering: that step must leave the costs predict reads alone
+    from .c12 import check_destroy
+    check_destroy(rep, repo, "FIT-END:")
     chk.undecided.append("that the scan's k slots are the k smallest distances (loop invariant of the insertion scan)")
